@@ -20,6 +20,24 @@ def pre_proof(ctx):
     ctx.notes.append("bin/extract: " + out.strip())
 
 
+NAMES = ["alpha", "bravo", "charlie", "delta", "echo", "foxtrot", "golf", "hotel", "india", "juliett", "kilo", "lima", "mike", "november", "oscar", "papa"]
+
+
+def module_program(rng):
+    """an entry module that imports a many-export module as a namespace and enumerates it (Object.keys, for-in,
+    JSON.stringify, entries), re-exports part of it and exports names of its own: every enumeration order is observable"""
+    k = rng.randint(2, 16)
+    names = rng.sample(NAMES, k)
+    lib = " ".join("export %s %s = %d;" % (rng.choice(["const", "let", "var"]), n, i) for i, n in enumerate(names))
+    lib += " export function fn_%s() { return 1; } export class Cls_%s {} export default %d;" % (names[0], names[-1], k)
+    own = rng.sample(NAMES, rng.randint(2, 8))
+    main = ("import * as lib from './lib'; import dflt, { %s as first } from './lib'; export * from './lib';\n" % names[0]
+            + " ".join("export const own_%s = %d;" % (n, i) for i, n in enumerate(own))
+            + "\nconst seen: string[] = []; for (const k in lib) seen.push(k);\n"
+            + "export const summary = [Object.keys(lib).join(','), seen.join(','), JSON.stringify(lib), Object.entries(lib).map(e => e[0]).join(','), String(dflt + first)].join('|');\nsummary")
+    return "//MODS " + json.dumps({"/m/lib": lib}) + "\n" + main
+
+
 def run(ctx):
     rng = ctx.rng
     groups = []
@@ -28,7 +46,9 @@ def run(ctx):
         k = rng.randint(2, 3)
         ps = []
         for j in range(k):
-            if rng.random() < 0.25:
+            if rng.random() < 0.2:
+                ps.append(module_program(rng))
+            elif rng.random() < 0.25:
                 s, resp, settle = c08.gen_script(rng, rng.randint(1, 3))
                 # only plain value orders (the iso harness answers every order with a number)
                 s = c08.HEAD + "\n".join("console.log('I'); const r%d = %sorder({k: %d}); out.push('R' + r%d);" % (q, "await " if q % 2 else "", q, q) for q in range(rng.randint(1, 3))) + "\nout.join(';')"
